@@ -154,6 +154,12 @@ class History:
             self.breaks = [self.t0 + self.T * rho / (1 + rho)]
         self.N = int(case["N"])
         self.ts = gen.partition(rng, self.t0, self.t0 + self.T, self.N, equal=case.get("equal", True))
+        # "any partition of the time span": optionally one very short interval (adaptive refinement towards an event,
+        # near-duplicate timestamps) -- partition point j is moved to just after point j-1
+        r = case.get("refine")
+        if r and self.N >= 2 and fd.get("mode") != "pulsed" and case.get("regime2") is None:
+            j = 1 + int(case["seed"]) % (self.N - 1)
+            self.ts[j] = self.ts[j - 1] + max(float(r) * self.T, 64 * float(np.spacing(abs(self.ts[j - 1]) + abs(self.T))))
         if fd.get("mode") == "pulsed":
             self.Lfun, self.posfun, self.breaks = make_pulsed_field(fd, self.ts)
         else:
@@ -311,6 +317,8 @@ def random_history_case(rng, **fixed):
     }
     if mode == "multirate":
         case["L"]["rho"] = float(rng.choice([1e-2, 1e-3, 1e-4]))
+    if rng.random() < 0.12:
+        case["refine"] = float(rng.choice([1e-6, 1e-8, 1e-10]))   # one very short update interval (fraction of the span)
     if rng.random() < 0.25:
         # the mineral is one phase of a two-phase assemblage (its own volume fraction phi)
         case["phi"] = float(rng.choice([0.7, 0.3, rng.uniform(0.05, 0.95)]))
@@ -497,12 +505,35 @@ class PairRun:
 
     TIGHT = {"rtol": 1e-10, "atol": 1e-12}
 
-    def compare(self, m1, m2, kw1, kw2, mapA, mapF, tol_of, exact=False, fresh=None, _tight=False):
+    def _explained_by_step_control(self, factory, kw1, kw2, mapF, tol):
+        """Defect model of known finding K10 for a pair whose deformation gradients disagree under a time- or
+        position-dependent velocity gradient: the identical pair re-run with a capped solver step (1/25 of the shortest
+        update interval of each run) agrees, i.e. the disagreement is LSODA's adaptive step control stepping over a
+        variation of L (each run's F is then off by its own few percent), not a broken relation."""
+        if factory is None or self.case.get("L", {}).get("mode", "const") == "const":
+            return None
+        self.ctx.count(f"{self.label}:K10_defect_model_evaluations")
+        try:
+            n1, n2 = factory()
+            outs = []
+            for m, kw in ((n1, kw1), (n2, kw2)):
+                ts = np.asarray(kw.get("ts", self.H.ts), float)
+                cap = float(np.abs(np.diff(ts)).min()) / 25 if len(ts) > 1 else None
+                F, _ = self._run(m, **dict(kw, solver_kw={"max_step": cap}))
+                outs.append(F)
+            eF = float(np.abs(outs[1] - mapF(outs[0])).max() / max(1.0, np.abs(outs[0]).max()))
+            return bool(eF <= tol)
+        except Exception:
+            return False
+
+    def compare(self, m1, m2, kw1, kw2, mapA, mapF, tol_of, exact=False, fresh=None, _tight=False, _factory=None):
         """``fresh`` () -> (m1, m2): factory of identically initialised minerals.  When given, a pair that
         disagrees under the default solver tolerances is re-run once with tight LSODA tolerances: if it then
         agrees, the disagreement was solver noise amplified by the (unstable) grain-growth dynamics -- an
         ill-conditioned case, counted, not a violation; a genuine break of the relation persists."""
         ctx, case, lab = self.ctx, self.case, self.label
+        _factory = _factory or fresh
+        kw1_user, kw2_user = kw1, kw2
         if _tight:
             kw1 = dict(kw1, solver_kw=self.TIGHT)
             kw2 = dict(kw2, solver_kw=self.TIGHT)
@@ -532,7 +563,7 @@ class PairRun:
                     if not inband.all() and fresh is not None and not _tight:
                         ctx.count(f"{lab}:rechecked_with_tight_solver_tolerances")
                         n1, n2 = fresh()
-                        return self.compare(n1, n2, kw1, kw2, mapA, mapF, tol_of, exact=exact, fresh=None, _tight=True)
+                        return self.compare(n1, n2, kw1, kw2, mapA, mapF, tol_of, exact=exact, fresh=None, _tight=True, _factory=_factory)
                     ctx.check(f"{lab}:gbs_mask_agrees_outside_tolerance_band", bool(inband.all()), case,
                               key="gbs_mask_mismatch", update=k, n_flips=int(flips.sum()),
                               worst=float(np.abs(a[1][flips] - thr).max()), thr=float(thr))
@@ -551,7 +582,7 @@ class PairRun:
             if not ok and fresh is not None and not _tight:
                 ctx.count(f"{lab}:rechecked_with_tight_solver_tolerances")
                 n1, n2 = fresh()
-                return self.compare(n1, n2, kw1, kw2, mapA, mapF, tol_of, exact=exact, fresh=None, _tight=True)
+                return self.compare(n1, n2, kw1, kw2, mapA, mapF, tol_of, exact=exact, fresh=None, _tight=True, _factory=_factory)
             if _tight and ok and k == nup:
                 ctx.count(f"{lab}:illconditioned_solver_noise_amplified")
             if exact:
@@ -562,6 +593,13 @@ class PairRun:
         if not diverged:
             tol = tol_of(nup)
             eF = float(np.abs(F2 - mapF(F1)).max() / max(1.0, np.abs(F1).max()))
-            ctx.extreme(f"{lab}:dF/tol", eF / tol)
-            ctx.check(f"{lab}:deformation_gradient_related", eF <= tol, case, err=eF, tol=tol)
+            okF = eF <= tol
+            if okF:
+                ctx.extreme(f"{lab}:dF/tol", eF / tol)
+            keyF, explF = f"{lab}:deformation_gradient_related", None
+            if not okF:
+                explF = self._explained_by_step_control(_factory, kw1_user, kw2_user, mapF, tol)
+                if explF is not None:
+                    keyF = "F_equals_reference/adaptive_steps_skip_variation_of_L"
+            ctx.check(f"{lab}:deformation_gradient_related", okF, case, key=keyF, explained=explF, err=eF, tol=tol)
         return True
